@@ -60,4 +60,20 @@ def run(ctx, which):
         ctx.add_obligations([Obligation(name=f"{ctx.pid}.lemma.RAVEL_INJ", function="lemma (spec level)", status=DISCHARGED if r == z3.unsat else (VIOLATED if r == z3.sat else UNDECIDED), backend="z3",
                                         formula="for 0 <= j, j' < n: i*n + j == i'*n + j' implies i == i' and j == j' (distinct label tuples / distinct rows get distinct codes)")])
         n += 1
+    from ..pyvc import conformance
+
+    only = []
+    if "factorize" in which:
+        only += ["_factorize_single", "ravel_multi_index"]
+    if any(w.startswith("cut_") for w in which):
+        only += ["numpy.digitize"]
+    if any(w.startswith("ravel") for w in which):
+        only += ["ravel_multi_index"]
+    if "convert" in which:
+        only += ["numpy.sort"]
+    if only:
+        from . import finalize_proofs
+
+        finalize_proofs._patch()
+        conformance.add_to_ctx(ctx, sorted(set(only)))
     return f"label->code functions: {n} obligations from {', '.join(which)}."
